@@ -64,6 +64,9 @@ CLAIMED = {
  "C19": ("exploration",
    "Seeded search over search histories (browse / resolve_hostname / stop / re-browse / receiver drop) on 1-3 interface hosts over hours to days of virtual time. Silent-network runs demand ms-exact equality between the queries on the wire (per interface and address family) and the 1,2,4...2048,3600 s schedule derived from the call history; responder runs demand that every query is covered by the schedule or a refresh/follow-up/verify allowance. Sampling, not proof; the schedule space per search is small and the cap (hour 1+) is reached in most runs.",
    "7.19", "Trusts the seam (send_to capture, virtual clock), the independent wire parser, and that the lock-step gate does not change loop behaviour; allowances in responder runs are upper bounds."),
+ "C20": ("exploration",
+   "Long virtual horizons (75 min per run) of traffic nobody asked for: a daemon with one or two browses and a host-name search (sometimes a registration) receives 300-3000 packets under distinct names - complete announcements of other types (records as answers or additionals), SRV / TXT / address / NSEC without PTR, subtype PTRs, goodbyes for records never cached, other hosts' probes, meta-type answers - interleaved with repeated announcements and goodbyes of 1-4 wanted instances (some never resolvable); its own get_metrics is sampled after one, two and three thirds of the stream, then all searches are stopped (sometimes with follow-up queries pending), the stream continues, and after the longest TTL has passed the metrics are read again. Oracle: cached-record counts never above the wanted records delivered; timers bounded per wanted record and search; no growth between samples beyond new wanted records; the final sample shows zero cached records and at most the interface-check timer; no query in the final quiet period.",
+   "7.20", "Queued retransmissions are not in the metrics; they show through the timer count and the wire. Two behaviours are known findings (PTR-less responses are cached for everybody; every copy of a record queues more timers)."),
 }
 NA_REASON = "no check registered yet in this build of the framework (planned in DESIGN.md section 7; not claimed until its oracle passes the no-false-alarm bar)"
 
